@@ -61,7 +61,7 @@ structure Store where
   embedded : Bool := false   -- EmbeddedValues
   txs : List TxEnts := []    -- committed txs; id = index + 1
   vlogs : Nat → VLog := fun _ => {}
-  valBsLocked : Bool := false -- `_valBsMux` is held although no ExportTx is running (leaked)
+  valBsLocked : Bool := false -- `_valBsMux` is held although no ExportTx is running (no exit of ExportTx leaves it so)
 deriving Inhabited
 
 def Store.last (s : Store) : Nat := s.txs.length
@@ -214,16 +214,18 @@ structure ExpRes where
 deriving Repr, DecidableEq
 
 /-- The loop `for i, e := range tx.Entries()` of `ExportTx`, given the result of `readValueAt` for
-each entry. Every iteration starts with `Lock()`; the two "partially truncated" returns have no
-`Unlock()`. -/
+each entry. Every iteration starts with `Lock()`; every exit — the two "partially truncated" returns
+included — is preceded by `Unlock()`.  (`locked` is kept in the result so that the lock discipline is a
+statement about the model, `Props.C14.export_releases_lock`, and the driver reports it to the harness,
+which checks the real mutex with `TryLock`.) -/
 def exportLoop : Nat → Bool → List Rd → ExpRes
   | _, trunc, [] => ⟨if trunc then .digests else .values, false⟩
   | i, trunc, r :: rs =>
     match r with
     | .err => ⟨.errRead, false⟩                                   -- Unlock(); return
-    | .ok => if trunc then ⟨.errPartial, true⟩                    -- return (no Unlock)
+    | .ok => if trunc then ⟨.errPartial, false⟩                   -- Unlock(); return
              else exportLoop (i + 1) trunc rs                      -- …; Unlock()
-    | .eof => if !trunc && 0 < i then ⟨.errPartial, true⟩         -- return (no Unlock)
+    | .eof => if !trunc && 0 < i then ⟨.errPartial, false⟩        -- Unlock(); return
               else exportLoop (i + 1) true rs                      -- …; Unlock()
 
 /-- `ExportTx(id)` on a store: a tx with ≥ 1 entry needs the mutex. -/
